@@ -10,6 +10,8 @@ RULE = ("decoders: ALL texts of length 0..2 over the full 8-bit alphabet and len
         "all 2^24 in thorough), 6 patterns x length 0..70, x 3 maxlen values, remainder-zeroing and canaries; undersized maxlen -> "
         "misuse handler. Every tuple is generated once (distinct); non-trivial = non-empty text compared with the reference.")
 
+RULE = RULE + " Length macro: sodium_base64_ENCODED_LEN with argument expressions of 15 operator-precedence forms, a, b in 0..47, 4 variants, against the length of the reference encoding of the expression's value."
+
 META = {
     "engine": "E-shape", "level": "exploration",
     "technique": "small-scope exhaustive enumeration of decoder input texts (full 8-bit alphabet to length 3, class alphabet to length 6/7, all 1-mutations) on the real code vs independent reference decoder",
